@@ -29,6 +29,8 @@ def node_order(nch: int, r0: bool, r1: bool, r2: bool, r3: bool, fail: int) -> N
     results = [Tok(r0, 'a'), Tok(r1, 'b'), Tok(r2, 'c'), Tok(r3, 'd')]
     node, stubs = build(kind, op, log, results, nch, fail, value=7)
     host = {'x': _F(log) if kind == 'CallOp' else 5}
+    if hlib.PARAM.get("unbound"):
+        host = {}
     st = mkstate(0, 10**6, host=host)
     raised = None
     res = None
@@ -56,6 +58,15 @@ def node_order(nch: int, r0: bool, r1: bool, r2: bool, r3: bool, fail: int) -> N
     flat = [(e[0], e[1]) for e in log if e[0] in ('enter', 'done')]
     for j in range(0, len(flat) - 1, 2):
         assert flat[j][0] == 'enter' and flat[j + 1] == ('done', flat[j][1]), "interleaved child evaluation"
+    if hlib.PARAM.get("unbound"):
+        # the arguments of a call to an undefined function are still evaluated, in order, before the error is raised
+        if fail not in exp:
+            from smartquery.exceptions import ParserError as _PE
+            assert isinstance(raised, _PE), "call of an undefined function did not raise ParserError"
+        else:
+            assert type(raised) is StubRaise, "a failing argument's error was replaced by the undefined-function error"
+        hlib.done()
+        return
     if fail in exp:
         assert type(raised) is StubRaise, "a failing operand's error was swallowed or replaced"
         assert ('call', m) not in log and st.names.scopes[-1]['x'] is host['x'], "operation applied although an operand failed"
@@ -116,6 +127,9 @@ TEMPLATES = [
     ("[t(1, a), t(1, a)] | len", lambda a, b, c: [1, 1]),
     ("t(1, a) + t(1, a) == t(1, a) * one", lambda a, b, c: [1, 1, 1]),
     ("{t(1, 'k'): t(1, 'k')}", lambda a, b, c: [1, 1]),
+    ("nosuch(t(1), t(2, a))", lambda a, b, c: [1, 2]),
+    ("t(1, l).nosuch(t(2))", lambda a, b, c: [1, 2]),
+    ("t(1) | nosuch", lambda a, b, c: [1]),
 ]
 if isinstance(hlib.PARAM, dict) and "t" in hlib.PARAM:
     prewarm(TEMPLATES[hlib.PARAM["t"]][0])
@@ -135,4 +149,8 @@ def api_order(a: int, b: int, c: bool, fail: int) -> None:
         exp = exp[:exp.index(fail) + 1]
         assert out[0] == 'err' and out[1] is StubRaise, "error raised by an operand was swallowed or replaced"
     assert p.log == exp, "probes ran in the wrong order / wrong number of times"
+    if hlib.PARAM["t"] == 0 and out[0] == 'ok':
+        want = (a if a else b) if c else b          # `c and a or b` yields the deciding operand ITSELF
+        assert out[1] is want or (type(out[1]) is type(want) and out[1] == want and not isinstance(want, int)), \
+            "and/or do not yield the deciding operand itself (type %s instead of %s)" % (type(out[1]).__name__, type(want).__name__)
     hlib.done()
